@@ -65,6 +65,14 @@ func (x *Exec) invoke(site ssa.Instruction, c *ssa.CallCommon, recv Value, args 
 	rt := x.term(recv)
 	name := c.Method.Name()
 	sig := c.Signature()
+	// devirtualise: the receiver was boxed in this unit, so its dynamic type is known
+	if bv, ok := x.u.boxed[rt.S]; ok {
+		if sel := x.u.eng.prog.MethodSets.MethodSet(bv.T).Lookup(c.Method.Pkg(), name); sel != nil {
+			if m := x.u.eng.prog.MethodValue(sel); m != nil {
+				return x.static(site, m, nil, append([]Value{bv.V}, args...), st)
+			}
+		}
+	}
 	if name == "Error" && sig.Results().Len() == 1 && sig.Params().Len() == 0 {
 		x.obl("safety[nil-deref]", "safety", "method call on nil interface", st, Not(Eq(rt, Term{"iface.nil", SIface})))
 		return w.UF("error.Error", SStr, rt)
